@@ -12,6 +12,7 @@
 //! (P-Code semantics, gamma / inv of intervals, segment lookup), not from the code under test.
 mod c01;
 mod c02;
+mod c03b;
 mod c05;
 mod c06;
 mod c07;
@@ -85,7 +86,10 @@ fn main() {
 }
 
 fn search(twin: &str, case: Option<&str>, seed: u64) -> Option<Value> {
-    if twin.starts_with("c01.") {
+    if c03b::handles(twin) {
+        // c03.data_merge, c03.domain_map, c04.data_bounds, c04.data_intersect: before the generic c02./c03./c04. prefixes
+        c03b::search(twin, case, seed)
+    } else if twin.starts_with("c01.") {
         c01::search(twin, case, seed)
     } else if twin.starts_with("c02.") || twin.starts_with("c03.") || twin.starts_with("c04.") {
         c02::search(twin, case, seed)
@@ -127,7 +131,10 @@ fn search(twin: &str, case: Option<&str>, seed: u64) -> Option<Value> {
 }
 
 fn replay(twin: &str, input: &Value) -> Value {
-    if twin.starts_with("c01.") {
+    if c03b::handles(twin) {
+        // c03.data_merge, c03.domain_map, c04.data_bounds, c04.data_intersect: before the generic c02./c03./c04. prefixes
+        c03b::replay(twin, input)
+    } else if twin.starts_with("c01.") {
         c01::replay(twin, input)
     } else if twin.starts_with("c02.") || twin.starts_with("c03.") || twin.starts_with("c04.") {
         c02::replay(twin, input)
@@ -169,7 +176,10 @@ fn replay(twin: &str, input: &Value) -> Value {
 }
 
 fn sweep(twin: &str, seed: u64) -> Value {
-    if twin.starts_with("c01.") {
+    if c03b::handles(twin) {
+        // c03.data_merge, c03.domain_map, c04.data_bounds, c04.data_intersect: before the generic c02./c03./c04. prefixes
+        c03b::sweep(twin, seed)
+    } else if twin.starts_with("c01.") {
         c01::sweep(twin, seed)
     } else if twin.starts_with("c02.") || twin.starts_with("c03.") || twin.starts_with("c04.") {
         c02::sweep(twin, seed)
